@@ -53,7 +53,21 @@ omit_root_models: true
 		"shapes/shapes.go": "package shapes\n\ntype Owner struct{ Name string }\n\ntype Shape interface {\n\tIsShape()\n\tGetID() string\n\tGetOwner() *Owner\n}\n\ntype Square struct {\n\tID    string\n\tOwner *Owner\n\tSide  float64\n}\n\nfunc (Square) IsShape()           {}\nfunc (s Square) GetID() string    { return s.ID }\nfunc (s Square) GetOwner() *Owner { return s.Owner }\n",
 		"geo/geo.go":       "package geo\n\nimport \"c17proj/shapes\"\n\ntype Circle struct {\n\tID     string\n\tOwner  *shapes.Owner\n\tRadius float64\n}\n\nfunc (Circle) IsShape()                  {}\nfunc (c Circle) GetID() string           { return c.ID }\nfunc (c Circle) GetOwner() *shapes.Owner { return c.Owner }\n\nvar _ shapes.Shape = Circle{}\n",
 	}}
-	return []*sweepCase{
+	// custom directives at every executable location and on the three operation kinds, in two schema files, under both
+	// exec layouts and both code styles (the generated operation and field middlewares must be declared once and be
+	// handed the execution context the way the code style has it)
+	var located []*sweepCase
+	for _, layout := range []string{"exec:\n  filename: graph/generated.go\n  package: graph\n", "exec:\n  layout: follow-schema\n  dir: graph\n  package: graph\n"} {
+		for _, style := range []string{"", "use_function_syntax_for_execution_context: true\n"} {
+			located = append(located, &sweepCase{Config: "schema:\n  - \"*.graphqls\"\n" + layout +
+				"model:\n  filename: graph/models_gen.go\n  package: graph\nresolver:\n  layout: follow-schema\n  dir: graph\n  package: graph\n" + style,
+				Schema: map[string]string{
+					"a.graphqls": "directive @log(level: Int! = 1) on FIELD | FRAGMENT_SPREAD | INLINE_FRAGMENT\ndirective @audit(tag: String) on QUERY | MUTATION | SUBSCRIPTION\ndirective @guard(role: String) on FIELD_DEFINITION | OBJECT\ntype Item @guard(role: \"r\") { id: ID! name: String @guard }\ntype Query { item: Item items: [Item!]! }\n",
+					"b.graphqls": "extend type Query { other: Item @guard(role: \"o\") }\ntype Mutation { touch(id: ID!): Item }\ntype Subscription { ticks: Int! }\n",
+				}})
+		}
+	}
+	return append(located, []*sweepCase{
 		handWritten,
 		// getting started, plus a type only a root field returns
 		mk(defaultConfig, `type Todo { id: ID! text: String! done: Boolean! user: User! }
@@ -110,5 +124,5 @@ input Inner { size: Size = SMALL tags: [String!] = ["a"] }
 input Outer { inner: Inner! list: [Inner!] n: Int = 3 }
 type Query { node(id: ID!): Node pets(filter: Outer): [Pet!]! named: Named! size(s: Size = LARGE): Size! }
 `),
-	}
+	}...)
 }
